@@ -15,7 +15,7 @@ from bctmc.tally import Tally
 from bctmc import dtypes
 
 PROPERTY = 'C12'
-RULE = ('element types: every routine also on int64 / int32 / uint8 / bool copies of all 3-node digraphs and 4-node graphs over {0,1,2} (same values as for float64; integers must not raise, a boolean matrix may be rejected with TypeError); Floyd: the structured 7-10 node family of bctmc/named.py (binary, lengths {1,2},{1,2,3}, near-tie) and all 3-node digraphs / 4-node graphs over lengths {1,2,3}, all binary 4-node digraphs, dyadic weights '
+RULE = ('call sequences: for every ordered pair (A,B) of binary 3-node digraphs, binary 4-node graphs and 3-node graphs over {0,1,2}, what the routine returned for A is unchanged after it was called on B; element types: every routine also on int64 / int32 / uint8 / bool copies of all 3-node digraphs and 4-node graphs over {0,1,2} (same values as for float64; integers must not raise, a boolean matrix may be rejected with TypeError); Floyd: the structured 7-10 node family of bctmc/named.py (binary, lengths {1,2},{1,2,3}, near-tie) and all 3-node digraphs / 4-node graphs over lengths {1,2,3}, all binary 4-node digraphs, dyadic weights '
         '{1,1/2,1/4} with inv and log, the exact near-tie alphabets {1,2,2+2^-20} and {1,2^20,2^20+1}, and the float near-tie alphabets {0.1,0.2,0.3} / {0.2,0.4,0.6} (0.1+0.2 != 0.3 in '
         'binary floating point), lengths {1,2} on all 59 049 5-node graphs, every ordered (s,t) (thorough: lengths {1,2} on all 4-node digraphs); '
         'navigation: binary L on 4 nodes x all symmetric D over {1,2,3}, L over {0,1,2} x D over {1,2}, max_hops in '
@@ -94,6 +94,10 @@ def plan(ctx):
         tot = ss.und_count(n, la)
         for (a, b) in ss.ranges(tot, tot):
             units.append(('nav', name, a, b))
+    for name, (directed, n, alpha) in SEQ.items():
+        tot = ss.dir_count(n, alpha) if directed else ss.und_count(n, alpha)
+        for (a, b) in ss.ranges(tot, 8):
+            units.append(('seq', name, a, b))
     units += dtypes.units([(True, 3, (0, 1, 2)), (False, 4, (0, 1, 2))])
     return units
 
@@ -215,7 +219,54 @@ def check_nav(t, L, Dm, mh, case):
     return multi and succ < n * n - n
 
 
+def work_sequence(unit):
+    """what a call returned stays what it was after the next call (no buffer shared between calls): every ordered pair
+    (A, B) of a family; the outputs for A are snapshotted, the routine is called on B, the outputs for A are compared."""
+    _, name, a, b = unit
+    t = Tally(PROPERTY)
+    directed, n, alpha = SEQ[name]
+    tot = ss.dir_count(n, alpha) if directed else ss.und_count(n, alpha)
+    gen = ss.dir_graph if directed else ss.und_graph
+    for i in range(a, b):
+        A = gen(n, alpha, i)
+        for j in range(tot):
+            B = gen(n, alpha, j)
+            for fname, f in (('distance_wei_floyd', lambda X: bct.distance_wei_floyd(X)),
+                             ('distance_wei_floyd[inv]', lambda X: bct.distance_wei_floyd(X, transform='inv'))):
+                st, outA = guarded(f, A.copy())
+                if st != 'ok':
+                    continue
+                snap = [np.array(x, copy=True) for x in outA]
+                guarded(f, B.copy())
+                t.c['evaluations'] += 1
+                t.c['nontrivial'] += 1
+                for k, (x, y) in enumerate(zip(outA, snap)):
+                    if not np.array_equal(np.asarray(x), y, equal_nan=True):
+                        t.viol(fname.split('[')[0], 'earlier_result_unchanged_by_later_call',
+                               {'family': name, 'index': i, 'X': A, 'then': B, 'call': fname}, observed=x, expected=y,
+                               tags={'output': k})
+                        break
+            if not directed:
+                D = np.abs(np.subtract.outer(np.arange(n), np.arange(n))) + 1.0
+                st, outA = guarded(bct.navigation_wu, A.copy(), D.copy())
+                if st == 'ok':
+                    snap = [np.array(x, copy=True) for x in outA[:4]] + [dict((k, list(v)) for k, v in outA[4].items())]
+                    guarded(bct.navigation_wu, B.copy(), D.copy())
+                    t.c['evaluations'] += 1
+                    same = all(np.array_equal(np.asarray(x), y, equal_nan=True) for x, y in zip(outA[:4], snap[:4])) and \
+                        dict((k, list(v)) for k, v in outA[4].items()) == snap[4]
+                    if not same:
+                        t.viol('navigation_wu', 'earlier_result_unchanged_by_later_call',
+                               {'family': name, 'index': i, 'X': A, 'then': B, 'call': 'navigation_wu'})
+    return t
+
+
+SEQ = {'seq_dir3': (True, 3, (0, 1)), 'seq_und4': (False, 4, (0, 1)), 'seq_len3': (False, 3, (0, 1, 2))}
+
+
 def work(unit):
+    if unit[0] == 'seq':
+        return work_sequence(unit)
     if unit[0] == 'etype':
         return dtypes.work_unit(PROPERTY, ETYPE_FUNCS, unit)
     kind, name, a, b = unit
@@ -260,6 +311,10 @@ def replay(rec):
         return dtypes.replay(PROPERTY, ETYPE_FUNCS, rec['case'])
     t = Tally(PROPERTY)
     c = rec['case']
+    if 'then' in c:
+        name = c['family']
+        directed, n, alpha = SEQ[name]
+        return work_sequence(('seq', name, c['index'], c['index'] + 1))
     if 'L' in c:
         base = {k: c[k] for k in ('family', 'index', 'L', 'D_index', 'D', 'max_hops')}
         check_nav(t, np.array(c['L'], dtype=float), np.array(c['D'], dtype=float), c['max_hops'], base)
